@@ -36,19 +36,22 @@ type fakeDocker struct {
 	listFail   bool
 	release    []int // completion order of the ContainerLogs calls (indices into containers)
 
-	mu      sync.Mutex
-	arrived map[int]chan struct{}
-	order   []int // order in which calls were actually released
-	opts    map[string]apicontainer.LogsOptions
-	readers []*evReader
-	opens   int
-	coord   sync.Once
+	mu       sync.Mutex
+	arrived  map[int]chan struct{}
+	order    []int // order in which calls were actually released
+	opts     map[string]apicontainer.LogsOptions
+	readers  []*evReader
+	opens    int
+	coord    sync.Once
+	inflight int // ContainerLogs calls that have not returned yet
 }
 
 var errOpenInjected = errors.New("verif: injected open failure")
 var errListInjected = errors.New("verif: injected list failure")
 
-func (f *fakeDocker) ContainerList(ctx context.Context, _ apicontainer.ListOptions) ([]types.Container, error) {
+// ContainerList answers as dockerd does: without All only running containers, and the label / status / id / name
+// filters of the request are applied to the containers' ORIGINAL Docker labels and fields
+func (f *fakeDocker) ContainerList(ctx context.Context, opts apicontainer.ListOptions) ([]types.Container, error) {
 	if f.listFail {
 		return nil, errListInjected
 	}
@@ -65,6 +68,23 @@ func (f *fakeDocker) ContainerList(ctx context.Context, _ apicontainer.ListOptio
 			tc.Labels = map[string]string{}
 			for _, kv := range c.Labels {
 				tc.Labels[unb64(kv[0])] = unb64(kv[1])
+			}
+		}
+		if !opts.All && tc.State != "running" {
+			continue
+		}
+		if fl := opts.Filters; fl.Len() > 0 {
+			if !fl.MatchKVList("label", tc.Labels) || !fl.ExactMatch("status", tc.State) || !fl.Match("id", tc.ID) {
+				continue
+			}
+			if fl.Contains("name") {
+				ok := false
+				for _, n := range tc.Names {
+					ok = ok || fl.Match("name", n)
+				}
+				if !ok {
+					continue
+				}
 			}
 		}
 		out = append(out, tc)
@@ -140,6 +160,12 @@ func (f *fakeDocker) ContainerLogs(ctx context.Context, id string, options apico
 		return nil, errors.New("verif: no such container")
 	}
 	f.mu.Lock()
+	f.inflight++
+	defer func() {
+		f.mu.Lock()
+		f.inflight--
+		f.mu.Unlock()
+	}()
 	if f.opts == nil {
 		f.opts = map[string]apicontainer.LogsOptions{}
 	}
@@ -178,6 +204,25 @@ func (f *fakeDocker) ContainerLogs(ctx context.Context, id string, options apico
 	f.opens++
 	f.mu.Unlock()
 	return rd, nil
+}
+
+// waitIdle reports how many ContainerLogs calls are still running (the evaluation has returned: every one of them should have
+// been joined) and waits for them to finish, so that what they open afterwards is counted
+func (f *fakeDocker) waitIdle(d time.Duration) int {
+	f.mu.Lock()
+	n := f.inflight
+	f.mu.Unlock()
+	deadline := time.Now().Add(d)
+	for time.Now().Before(deadline) {
+		f.mu.Lock()
+		k := f.inflight
+		f.mu.Unlock()
+		if k == 0 {
+			break
+		}
+		time.Sleep(200 * time.Microsecond)
+	}
+	return n
 }
 
 func (f *fakeDocker) stats() map[string]any {
